@@ -485,8 +485,18 @@ func (set *Set) Exist(addr string) bool {
 func (set *Set) ReplaceAll(hosts []*Host) {
 	set.Lock()
 	defer set.Unlock()
-	for _, host := range set.all {
-		set.remove(host)
+	// drop every stored host without publishing the lists in between: readers
+	// load the usable list without the lock and must only ever see the list
+	// before or after the replacement.
+	for addr, host := range set.all {
+		host.markRemoved()
+		delete(set.all, addr)
+		delete(set.healthyMain, addr)
+		delete(set.healthyBackup, addr)
+	}
+	if len(hosts) == 0 {
+		set.buildHealthyCache()
+		return
 	}
 	set.add(hosts...)
 }
